@@ -310,7 +310,12 @@ func (aux *Aux) compMeths(mc *methComp, key []string, ki int, args slip.List) {
 	}
 }
 
-// args should be only specializer arguments.
+// args should be only specializer arguments. The applicable methods are
+// determined by the whole class precedence list of each argument so that is
+// what the key is made of. The name of the class alone is not enough, a class
+// can be redefined with other superclasses, directly or by the redefinition
+// of one of its superclasses, while instances of the original class are
+// still around.
 func buildSpecKey(args slip.List) string {
 	var b []byte
 	for i, a := range args {
@@ -320,7 +325,12 @@ func buildSpecKey(args slip.List) string {
 		if a == nil {
 			b = append(b, 't')
 		} else {
-			b = append(b, a.Hierarchy()[0]...)
+			for j, h := range a.Hierarchy() {
+				if 0 < j {
+					b = append(b, ' ')
+				}
+				b = append(b, h...)
+			}
 		}
 	}
 	return string(b)
